@@ -374,7 +374,7 @@ class Translator:
                 return
         if r.kind == "async":
             pass
-        if b.endswith(".start") or any(b.startswith(p) for p in IGNORED_SITES):
+        if b.endswith(".start") or any(b.startswith(p) for p in IGNORED_SITES) or re.search(r"#s\d+\.stmt$", b):
             return
         raise Unmapped("release point %s of a %s goroutine" % (b, r.kind))
 
